@@ -247,9 +247,18 @@ pub fn listening(port: u16) -> bool {
     false
 }
 
-pub fn pick_port(rng: &mut hvutil::Rng) -> u16 {
-    for _ in 0..200 {
-        let p = 20000 + (rng.below(30000) as u16);
+/// Port for one scenario: below the ephemeral range, chosen from a per-process stream (the port is not part
+/// of the case; two harness processes with the same VERIF_SEED must not pick the same ports).
+pub fn pick_port(_rng: &mut hvutil::Rng) -> u16 {
+    static PORT_RNG: Mutex<Option<hvutil::Rng>> = Mutex::new(None);
+    let mut g = PORT_RNG.lock().unwrap();
+    if g.is_none() {
+        let t = std::time::SystemTime::now().duration_since(std::time::UNIX_EPOCH).map(|d| d.subsec_nanos() as u64).unwrap_or(0);
+        *g = Some(hvutil::Rng::new(((std::process::id() as u64) << 32) ^ t));
+    }
+    let rng = g.as_mut().unwrap();
+    for _ in 0..400 {
+        let p = 10240 + (rng.below(21000) as u16);
         if listening(p) {
             continue;
         }
@@ -666,7 +675,31 @@ impl Driver {
             "sleep" => std::thread::sleep(Duration::from_millis(c.max(0) as u64)),
             "await" => {
                 // ["await", c, "Event"]: the event must be in the log (searching from the start)
-                self.await_ev(&s2, c, 0);
+                if self.cfg.rt == "tokio" && self.sig_sent && self.ctx.gates.lock().unwrap().mode.get("acc") == Some(&Mode::StepAll) {
+                    // gated replay on tokio after the cancel: select! may have taken the other ready arm (accept
+                    // instead of cancelled, or the reverse); then the behaviour cannot be forced any further
+                    let ports: HashMap<u16, i64> = self.clis.iter().map(|(k, v)| (v.port, *k)).collect();
+                    let seen = *self.seen.get("acc").unwrap_or(&0);
+                    let ctx = self.ctx.clone();
+                    let me: *mut Driver = self;
+                    let name = s2.clone();
+                    let found = move |d: &Driver| {
+                        d.ctx.log.lock().unwrap().iter().any(|e| {
+                            e.ev == name && (c < 0 || e.c == c || (e.ev == "Accept_Return" && ports.get(&(e.v as u16)) == Some(&c)))
+                        })
+                    };
+                    let ok = wait_cond(&ctx, || unsafe {
+                        found(&*me) || (*me).class_events("acc") > seen || (s2 != "Run_Return" && (*me).ctx.has_event("Run_Return"))
+                    });
+                    if !ok {
+                        self.problems.push(format!("expected event {}({}) did not happen", s2, c));
+                        self.hang = true;
+                    } else if !found(self) {
+                        self.diverged = true;
+                    }
+                } else {
+                    self.await_ev(&s2, c, 0);
+                }
             }
             "hold" => {
                 // ["hold", _, "Point"]: the thread that reaches Point parks there
@@ -744,9 +777,22 @@ impl Driver {
                 self.ctx.record("Obs_Closed", "drv", -1, 0, "");
             }
             let baddr: SocketAddr = format!("{}:{}", if self.cfg.bind.contains(':') { format!("[{}]", self.cfg.bind) } else { self.cfg.bind.clone() }, port).parse().unwrap();
-            let r = TcpListener::bind(baddr);
-            self.ctx.record("Rebind", "drv", -1, if r.is_ok() { 1 } else { 0 }, "");
-            rebind = json!(r.is_ok());
+            // another process of this machine may grab the port in between: a failed bind counts only when
+            // nobody else is listening there now
+            let mut r = TcpListener::bind(baddr);
+            for _ in 0..5 {
+                if r.is_ok() {
+                    break;
+                }
+                std::thread::sleep(Duration::from_millis(40));
+                r = TcpListener::bind(baddr);
+            }
+            if r.is_ok() || !listening(port) {
+                self.ctx.record("Rebind", "drv", -1, if r.is_ok() { 1 } else { 0 }, "");
+                rebind = json!(r.is_ok());
+            } else {
+                self.problems.push("port taken by another process before the re-bind: inconclusive".into());
+            }
             drop(r);
         } else {
             self.hang = true;
